@@ -11,7 +11,7 @@ ENGINE = "gen_destructure"
 RULE = ("programs = destructure! invocations from a pattern grammar: braced structs (field, `field: renamed`, `field: _`, "
         "`field: (sub, pattern)`, `field: mut x`), tuple structs, tuples of arity 0..=16, arrays with prefix / `rest @ ..` / "
         "bare `..` / suffix / `_` / parenthesised sub-patterns / empty; struct named by path or by `Path<T>` type form, with "
-        "and without `: Type` annotation; #[repr(C, packed)] structs, generic, zero-sized and nested-aggregate fields; every "
+        "and without `: Type` annotation; #[repr(packed)] / packed(2) / packed(4) / packed(8) structs (with and without repr(C)) holding u64 / u128 / Drop fields behind a u8, generic, zero-sized and nested-aggregate fields; every "
         "field value is built from ledger-tracked Drop values with distinct ids; oracle (inside the program): right after the "
         "macro statement every id matched by `_` / `..` has been dropped exactly once and every bound id is live with its "
         "payload intact; the bound values arrive in declaration order with the original ids; after dropping them every id "
@@ -51,6 +51,8 @@ impl Ids for T { fn ids(&self, out: &mut Vec<u32>) {
 } }
 impl Ids for () { fn ids(&self, _: &mut Vec<u32>) {} }
 impl Ids for u8 { fn ids(&self, _: &mut Vec<u32>) {} }
+impl Ids for u64 { fn ids(&self, _: &mut Vec<u32>) { if *self != 0x0102_0304_0506_0708u64 { err(format!("u64 field arrived as {:#x}", self)); } } }
+impl Ids for u128 { fn ids(&self, _: &mut Vec<u32>) { if *self != 0x0102_0304_0506_0708_090a_0b0c_0d0e_0f10u128 { err(format!("u128 field arrived as {:#x}", self)); } } }
 impl<X> Ids for PhantomData<X> { fn ids(&self, _: &mut Vec<u32>) {} }
 impl<A: Ids, B: Ids> Ids for (A, B) { fn ids(&self, out: &mut Vec<u32>) { self.0.ids(out); self.1.ids(out); } }
 impl<A: Ids, const N: usize> Ids for [A; N] { fn ids(&self, out: &mut Vec<u32>) { for x in self { x.ids(out); } } }
@@ -71,7 +73,9 @@ pub fn finish(total: u32, got: &[u32], want: &[u32]) -> Vec<String> {
 }
 '''
 
-FIELD_KINDS = ["T", "T", "T", "pair", "arr", "zst", "u8", "gen"]
+FIELD_KINDS = ["T", "T", "T", "pair", "arr", "zst", "u8", "gen", "u64", "u128"]
+# every packing the language has: fields with a natural alignment above N sit at under-aligned addresses
+PACKINGS = ["#[repr(C, packed)]", "#[repr(packed)]", "#[repr(packed(2))]", "#[repr(C, packed(2))]", "#[repr(packed(4))]", "#[repr(C, packed(4))]", "#[repr(packed(8))]"]
 
 
 class Ctr:
@@ -96,6 +100,10 @@ def field_value(kind, ctr):
         return "()", "()", []
     if kind == "u8":
         return "u8", "7u8", []
+    if kind == "u64":
+        return "u64", "0x0102_0304_0506_0708u64", []
+    if kind == "u128":
+        return "u128", "0x0102_0304_0506_0708_090a_0b0c_0d0e_0f10u128", []
     raise ValueError(kind)
 
 
@@ -113,14 +121,19 @@ def position(rng, kind, j, allow_sub=True):
     return "x%d" % j, ["x%d" % j], False
 
 
-def gen_struct(rng, i, tuple_struct):
+def gen_struct(rng, i, tuple_struct, force_packed=False):
     ctr = Ctr()
     nf = rng.choice([0, 1, 2, 3, 3, 4, 5, 8])
     if tuple_struct:
         nf = min(nf, 16)
-    packed = rng.random() < 0.2 and nf > 0
+    if force_packed:
+        nf = max(nf, 2)
+    packed = (rng.random() < 0.25 or force_packed) and nf > 0
     generic = rng.random() < 0.3
     kinds = [rng.choice(FIELD_KINDS) for _ in range(nf)]
+    if force_packed:
+        # an odd-sized first field so that the following ones really are misaligned
+        kinds[0] = "u8"
     if not generic:
         kinds = ["T" if k == "gen" else k for k in kinds]
     elif "gen" not in kinds and nf > 0:
@@ -134,7 +147,8 @@ def gen_struct(rng, i, tuple_struct):
     name = "S%d" % i
     gparams = "<G>" if generic else ""
     targs = "<T>" if generic else ""
-    attr = "#[repr(C, packed)]\n" if packed else ""
+    packing = rng.choice(PACKINGS) if packed else ""
+    attr = packing + "\n" if packed else ""
     if tuple_struct:
         decl = "%sstruct %s%s(%s);" % (attr, name, gparams, ", ".join(f["ty"] for f in fields))
         ctor = "%s(%s)" % (name, ", ".join(f["ctor"] for f in fields))
@@ -169,7 +183,7 @@ def gen_struct(rng, i, tuple_struct):
         head = head.replace(name, "self::" + name, 1) if rng.random() < 0.5 else head
     ann = (": %s%s" % (name, targs)) if annot else ""
     stmt = "konst::destructure!{%s%s = v}" % (head, ann)
-    desc = {"shape": "tuple_struct" if tuple_struct else "braced", "fields": kinds, "pattern": head + ann, "packed": packed, "generic": generic}
+    desc = {"shape": "tuple_struct" if tuple_struct else "braced", "fields": kinds, "pattern": head + ann, "packed": packing if packed else False, "generic": generic}
     nt = packed or nf >= 8 or (bool(dropped) and bool(want))
     return decl, "let v = %s;" % ctor, stmt, bound, want, dropped, ctr.n, desc, nt
 
@@ -255,8 +269,10 @@ def gen_array(rng, i):
     return "", "let v: %s = %s;" % (ty, ctor), stmt, bound, want, dropped, ctr.n, desc, nt
 
 
-def gen(rng, i):
+def gen(rng, i, only_packed=False):
     shape = rng.choice(["braced", "braced", "tuple_struct", "tuple_struct", "tuple", "tuple", "array", "array", "array"])
+    if only_packed:
+        return gen_struct(rng, i, rng.random() < 0.5, force_packed=True)
     if shape == "braced":
         return gen_struct(rng, i, False)
     if shape == "tuple_struct":
@@ -309,11 +325,13 @@ def run_batch(name, gens, timeout, miri=False):
     return rc, out
 
 
-def run(prop, tier, seed, out, timeout, miri=False, **kw):
+def run(prop, tier, seed, out, timeout, miri=False, only_packed=False, **kw):
     t0 = time.time()
-    rng = random.Random(seed * 313 + 15)
+    rng = random.Random(seed * 313 + 15 + (7 if only_packed else 0))
     n = (40 if tier == "quick" else 120) if miri else (800 if tier == "quick" else 5000)
-    gens = [gen(rng, i) for i in range(n)]
+    if only_packed:
+        n = 28
+    gens = [gen(rng, i, only_packed) for i in range(n)]
     violations = []
     rejected = []
     per = 40 if miri else 250
@@ -374,7 +392,7 @@ def run(prop, tier, seed, out, timeout, miri=False, **kw):
         if rc == 0:
             rc = 2
     wall = time.time() - t0
-    eng = ENGINE + ("-miri" if miri else "")
+    eng = ENGINE + ("-miri" if miri else "") + ("-packed" if only_packed else "")
     text.append("[%s %s] programs=%d evaluations=%d distinct_nontrivial=%d violations=%d wall=%.1fs" %
                 (prop, eng, len(gens), evaluations, len(nontriv), len(violations), wall))
     driver.write_evidence(out, prop, eng, tier, seed, wall, max(evaluations, 1), len(nontriv), RULE, samples, len(violations),
